@@ -154,6 +154,8 @@ class Sim:
         self.locs = {} if record_locs else None
         self.monitor_codes = monitor_codes or {}
         self.monitor_hits = []
+        self.exc_codes = {}  # code -> label: record exceptions passing through these functions
+        self.exc_hits = []
         self.monitor_tagged = False  # record (thread, tag, label) instead of label
         self.opcode_funcs = opcode_funcs or ()
         if self.opcode_funcs:
@@ -184,6 +186,14 @@ class Sim:
         return self.local_trace
 
     def local_trace(self, frame, event, arg):
+        if event == "exception" and self.exc_codes and frame.f_code in self.exc_codes:
+            # an exception passing through a watched function (C20: a resolution that fails)
+            tup = frame.f_locals.get("obj_t_tup")
+            plain = not (tup and hasattr(tup[0], "co_code"))
+            sc = self.sched
+            tid = sc.current if sc is not None else 0
+            self.exc_hits.append((self.exc_codes[frame.f_code], plain, tid, self.monitor_tag.get(tid)))
+            return self.local_trace
         if event != "line" and event != "opcode":
             return self.local_trace
         code = frame.f_code
